@@ -23,7 +23,7 @@ import (
 
 type c17Case struct {
 	Dataset   int   `json:"dataset"`
-	Placement int   `json:"placement"` // 0 memory, 1 disk, 2 split
+	Placement int   `json:"placement"` // 0 memory, 1 disk, 2 split, 3 altered (fields mx and b added after the file was written)
 	Batch     []int `json:"batch"`     // indices into the query alphabet, in arrival order
 	// Split > 0: the first Split queries form one batch, the rest a second one
 	Split int `json:"split,omitempty"`
@@ -81,8 +81,18 @@ func c17Dataset(i int) []*rm.Pt {
 	}
 }
 
+// c17DefOld is the table before fields mx and b were added.
+func c17DefOld() dbdrv.TableDef {
+	return dbdrv.TableDef{Name: "t17", Stream: "s", Retention: 100 * time.Second,
+		SQL: "SELECT SUM(a) AS a, COUNT(a) AS ca, AVG(a) AS av, PERCENTILE(a, 50, 0, 10, 0) AS p50 FROM s GROUP BY x, y, period(1s)"}
+}
+
 func c17Open(c *fw.Ctx, ds, placement int) *dbdrv.DB {
-	db, err := dbdrv.Open(newDir(c), dbdrv.Config{Tables: []dbdrv.TableDef{c17Def()}})
+	def := c17Def()
+	if placement == 3 {
+		def = c17DefOld()
+	}
+	db, err := dbdrv.Open(newDir(c), dbdrv.Config{Tables: []dbdrv.TableDef{def}})
 	if err != nil {
 		c.Incomplete("open: " + err.Error())
 		return nil
@@ -94,8 +104,16 @@ func c17Open(c *fw.Ctx, ds, placement int) *dbdrv.DB {
 			db.Close()
 			return nil
 		}
-		if placement == 2 && i == len(pts)/2-1 {
+		if (placement == 2 || placement == 3) && i == len(pts)/2-1 {
 			db.FlushAll()
+		}
+		if placement == 3 && i == len(pts)/2-1 {
+			// the file keeps its old header; rows inserted from now on carry the new fields, in memory
+			if err := db.Alter(dbdrv.Config{Tables: []dbdrv.TableDef{c17Def()}}); err != nil {
+				c.Incomplete("alter: " + err.Error())
+				db.Close()
+				return nil
+			}
 		}
 	}
 	if placement == 1 {
@@ -261,12 +279,26 @@ func combos(n, k int) [][]int {
 	return out
 }
 
+func perms(a []int) [][]int {
+	if len(a) <= 1 {
+		return [][]int{append([]int(nil), a...)}
+	}
+	var out [][]int
+	for i := range a {
+		rest := append(append([]int(nil), a[:i]...), a[i+1:]...)
+		for _, p := range perms(rest) {
+			out = append(out, append([]int{a[i]}, p...))
+		}
+	}
+	return out
+}
+
 func init() {
 	fw.Register(&fw.Prop{
 		ID:          "C17",
 		Level:       "model_checking",
 		NoThreads:   true,
-		Rule:        "4 datasets × {memory, disk, split} × all batches of 2 and 3 queries (quick), plus all of size 4 with every split into two successive batches, and the full 8- and 10-query batches (thorough), from a 10-query alphabet (SELECT *, disjoint and overlapping field subsets in different orders, LIMIT 1, ASOF/UNTIL inside the data and ending before the newest period, PERCENTILE wrap, a consumer failing at row 2, a disk-only query); batch composition is decided by the harness through the iteration intercept and processed by the real doProcessIterations; each batch runs 4× (map iteration order); oracle: every query's rows and error equal its solo run; non-trivial = every batch (>=2 coalesced queries)",
+		Rule:        "4 datasets × {memory, disk, split, altered (fields mx and b added after the file was written, later rows in memory)} × all batches of 2 and 3 queries in every arrival order, all of 4 in one order, and the full 8- and 10-query batches (quick), plus every split of the size-4 batches into two successive batches and all batches of 5 (thorough), from a 10-query alphabet (SELECT *, disjoint and overlapping field subsets in different orders, LIMIT 1, ASOF/UNTIL inside the data and ending before the newest period, PERCENTILE wrap, a consumer failing at row 2, a disk-only query); batch composition is decided by the harness through the iteration intercept and processed by the real doProcessIterations; each batch runs 4× (map iteration order); oracle: every query's rows and error equal its solo run; non-trivial = every batch (>=2 coalesced queries)",
 		Assumptions: []string{"for LIMIT and failing consumers the number of rows (not which rows) is compared, since scan order decides which arrive first"},
 		Shards:      func(tier string) int { return 12 },
 		Budget:      func(tier string) time.Duration { return 25 * time.Minute },
@@ -274,22 +306,31 @@ func init() {
 			n := len(c17Alphabet())
 			var batches []c17Case
 			for _, k := range []int{2, 3} {
+				// every arrival order (the order in which iterations are queued is theirs to be fed in)
 				for _, b := range combos(n, k) {
-					batches = append(batches, c17Case{Batch: b})
-				}
-			}
-			if c.Thorough() {
-				for _, b := range combos(n, 4) {
-					batches = append(batches, c17Case{Batch: b})
-					for s := 1; s < 4; s++ {
-						batches = append(batches, c17Case{Batch: b, Split: s})
+					for _, p := range perms(b) {
+						batches = append(batches, c17Case{Batch: p})
 					}
 				}
-				batches = append(batches, c17Case{Batch: []int{0, 1, 2, 3, 4, 5, 6, 7}}, c17Case{Batch: []int{0, 1, 2, 3, 4, 5, 6, 7, 8, 9}}, c17Case{Batch: []int{9, 8, 7, 6, 5, 4, 3, 2, 1, 0}})
+			}
+			for _, b := range combos(n, 4) {
+				batches = append(batches, c17Case{Batch: b})
+				if !c.Thorough() {
+					continue
+				}
+				for s := 1; s < 4; s++ {
+					batches = append(batches, c17Case{Batch: b, Split: s})
+				}
+			}
+			batches = append(batches, c17Case{Batch: []int{0, 1, 2, 3, 4, 5, 6, 7}}, c17Case{Batch: []int{0, 1, 2, 3, 4, 5, 6, 7, 8, 9}}, c17Case{Batch: []int{9, 8, 7, 6, 5, 4, 3, 2, 1, 0}})
+			if c.Thorough() {
+				for _, b := range combos(n, 5) {
+					batches = append(batches, c17Case{Batch: b})
+				}
 			}
 			var idx int64
 			for ds := 0; ds < 4; ds++ {
-				for pl := 0; pl < 3; pl++ {
+				for pl := 0; pl < 4; pl++ {
 					idx++
 					if !c.Mine(idx) {
 						continue
@@ -322,7 +363,7 @@ func init() {
 					env.db.Close()
 				}
 			}
-			c.R.Bound = "batches of 2,3 (quick) / + all 4-sets with splits, 8- and 10-query batches (thorough)"
+			c.R.Bound = "ordered batches of 2 and 3, 4-sets, 8- and 10-query batches (quick) / + splits of the 4-sets and 5-sets (thorough)"
 		},
 		Replay: func(c *fw.Ctx, raw json.RawMessage) {
 			var cs c17Case
